@@ -44,7 +44,7 @@ ValuesOk(o, lg) ==
             lg.rdms[r][Cidx(n, p, q)] = MatAt(o.rdms[r].vec, n, RowOf(o, lg, p), RowOf(o, lg, q))
 TimeOk(o, lg) == inp.mode = "movie" => lg.time = o.time
 FirstBad(o, lg) ==      \* diagnostics: the first (rdm, p, q) whose value is not explained
-  IF ~LabelsOk(o, lg) \/ Len(lg.rdms) # Len(o.rdms) THEN <<0, 0, 0>>
+  IF ~Exact \/ ~LabelsOk(o, lg) \/ Len(lg.rdms) # Len(o.rdms) THEN <<0, 0, 0>>
   ELSE LET n == Len(o.lab)
            B == {x \in (1..Len(o.rdms)) \X (1..n) \X (1..n) :
                    x[2] < x[3] /\ (Len(lg.rdms[x[1]]) # CLen(n) \/
